@@ -114,6 +114,15 @@ Example C11_bitmaps :
     = [false; true; false; false; false; true; false; false].
 Proof. vm_compute. repeat split; reflexivity. Qed.
 
+(* the iterator struct the library puts on its stack is at least as large as what go1.24's
+   mapiterinit / mapiternext write, with pointer words wherever they store pointers (an
+   example about two type descriptions; the iteration protocol is not modelled) *)
+Example C11_mapiter_compatible :
+  sizeof linkname_iter_type <= sizeof mapiter_type /\
+  ptrmap linkname_iter_type = firstn 4 (ptrmap mapiter_type) /\
+  ptrmap mapiter_type = [true; true; true; true; true; true; true; true; false; false; false; false].
+Proof. vm_compute. repeat split; try reflexivity. discriminate. Qed.
+
 (* a target with the notable shapes: slices and maps behind pointers, a map of maps,
    a map of slices, a map of pointers, a pointer to a fixed array, a slice of
    pointers, a double pointer *)
